@@ -772,8 +772,8 @@ func init() {
 			entries := core.Section{Name: "entry-points", Exhaustive: true, N: len(entryStrings),
 				Run: func(c *core.Ctx, i int) {
 					str := entryStrings[i]
-					data := map[string]any{"s": str, "n": 7, "u": c12User{Name: str, Age: 3}, "xs": []string{str, str}}
-					src := "<{{ s }}>|{{ n }}|{{ u.name }}|{{ xs }}|{{ s.len() }}"
+					data := map[string]any{"s": str, "n": 7, "u": c12User{Name: str, Age: 3}, "xs": []string{str, str}, "np": (*string)(nil), "nm": map[string]any{"k": nil}, "ne": []any{str, nil}}
+					src := "<{{ s }}>|{{ n }}|{{ u.name }}|{{ xs }}|{{ s.len() }}|@for(k = 0; k < 2; k++)[{{ s }}]@end|@each(q in xs)({{ q }})@end|@if(n){{ u.name }}@else x@end"
 					want := evalString(c, src, data)
 					c.Input(map[string]any{"source": src, "s": str})
 					c.Nontrivial("entry:" + str)
@@ -783,12 +783,12 @@ func init() {
 						}
 						return
 					}
-					if exp := "<" + str + ">|7|" + str + "|" + str + ", " + str + "|" + fmt.Sprint(utf8.RuneCountInString(str)); want.Out != exp {
+					if exp := "<" + str + ">|7|" + str + "|" + str + ", " + str + "|" + fmt.Sprint(utf8.RuneCountInString(str)) + "|[" + str + "][" + str + "]|(" + str + ")(" + str + ")|" + str; want.Out != exp {
 						c.Violation("entry-point:string", fmt.Sprintf("EvaluateString gave %q, want %q", want.Out, exp), map[string]any{"s": str})
 					}
 					files := map[string]string{"page.tw": src, "layouts/l.tw": "L[@reserve(\"b\")]", "with.tw": "@use(\"~l\")@insert(\"b\")" + src + "@end",
 						// the values handed on as insert arguments, component arguments and in slot bodies
-						"arg.tw": "@use(\"~l\")@insert(\"b\", s)", "argfield.tw": "@use(\"~l\")@insert(\"b\", u.name)", "argelem.tw": "@use(\"~l\")@insert(\"b\", xs[1])",
+						"arg.tw": "@use(\"~l\")@insert(\"b\", s)", "argnil.tw": "@use(\"~l\")@insert(\"b\", np)", "argnilkey.tw": "@use(\"~l\")@insert(\"b\", nm.k)", "argnilelem.tw": "@use(\"~l\")@insert(\"b\", ne[1])", "argfield.tw": "@use(\"~l\")@insert(\"b\", u.name)", "argelem.tw": "@use(\"~l\")@insert(\"b\", xs[1])",
 						"components/c.tw": "C[{{ v }}|{{ w }}|@slot]", "comp.tw": "@component(\"~c\", {v: s, w: xs[0]})@slot{{ u.name }}@end@end"}
 					tpl, err := loadTree(c, "c12entry", files, ".tw")
 					if err != nil || tpl == nil {
@@ -797,7 +797,7 @@ func init() {
 						}
 						return
 					}
-					for page, w := range map[string]string{"page": want.Out, "with": "L[" + want.Out + "]", "arg": "L[" + str + "]", "argfield": "L[" + str + "]", "argelem": "L[" + str + "]", "comp": "C[" + str + "|" + str + "|" + str + "]"} {
+					for page, w := range map[string]string{"page": want.Out, "with": "L[" + want.Out + "]", "arg": "L[" + str + "]", "argnil": "L[]", "argnilkey": "L[]", "argnilelem": "L[]", "argfield": "L[" + str + "]", "argelem": "L[" + str + "]", "comp": "C[" + str + "|" + str + "|" + str + "]"} {
 						if o, _ := renderPage(c, tpl, page, data); !o.Panicked && (o.Err != nil || o.Out != w) {
 							c.Violation("entry-point:String", fmt.Sprintf("Template.String(%s) gave %s, want %q", page, o.Describe(), w), map[string]any{"s": str})
 						}
